@@ -648,6 +648,11 @@ def _brk(ctx, what, case):
 
 def correspond(ctx):
     rng = ctx.rng
+    ctx.assumptions.append("documented input is `hadron_data: list` of lists of Particle: tuples and numpy object arrays (outer and inner) "
+                           "behave as sequences and are generated; ONE-SHOT ITERATORS are outside the documented input: an iterator "
+                           "as outer container is rejected (TypeError, probed each run: rejected-or-correct), an iterator as an EVENT "
+                           "is consumed by the clustering and the cone search then sees an empty event (jets without constituents, "
+                           "silently) - read as outside the property's 'event samples', not flagged")
     ctx.rule = ("random samples of 0-5 events (kinds empty/soft/outside/jets in any position, <=40 particles, statuses "
                 "<0 and >=0, charged/neutral/unset charge), R, algorithm, eta/pT windows with None, swapped and "
                 "bit-equal-to-a-jet limits, charged-only on/off, output file absent/empty/pre-filled; non-trivial = "
@@ -657,7 +662,12 @@ def correspond(ctx):
                 "reordered, particles added/removed, momentum/status/charge changed through the setters; new lists; new outer "
                 "list over the same event lists; other parameters; output path re-used, rewritten or deleted; read_jet_data "
                 "in between), every call compared with the model on the current content (non-trivial = 2nd or later call "
-                "that writes a jet); distinct by canonical input")
+                "that writes a jet); distinct by canonical input; round-4 presentation variants of the same call (JetAnalysis object "
+                "copied / deep-copied / pickled, fresh or after serving another call, also between the calls of a history; hadron "
+                "data as tuples / numpy object array / copy / deep copy / pickle round trip; output file by bare relative name "
+                "after chdir, as pathlib.Path, with blanks and non-ASCII characters in its name; np.seterr(all='warn') + print "
+                "options, advanced random / np.random state, all required to be left as found; read_jet_data on the same rows "
+                "with LF line ends / blanks around the fields / through a copied reader / by relative name)")
     ctx.cov["source_sha"] = common.region_hash(common.read_src("JetAnalysis.py"))
     ctx.cov["source_regions"] = source_regions()  # information only: the tie is the correspondence, not these hashes
     ctx.assumptions.append("fastjet (clustering, inclusive_jets(ptmin) as filter pt>=ptmin, SelectorEtaRange closed window, "
@@ -822,10 +832,29 @@ def _corr_read(ctx, idxs, out, gen=False):
     from sparkx.JetAnalysis import JetAnalysis
     path = os.path.join(_tmpdir(), "read.csv")
     rows = [[i, 1.0 + k, 0.5, 0.25, 10 if i == 0 else 27, 10 if i == 0 else 211, 2.0 + k, 3] for k, i in enumerate(idxs)]
+    # round 4: the same rows with LF / CRLF line ends, blanks around the fields, a copied reader object, a bare relative
+    # file name after chdir (decided by the case itself, so that model and generated model see the same variant)
+    flavour = (len(idxs) + sum(idxs)) % 6
+    buf = io.StringIO(newline="")
+    csv.writer(buf, lineterminator="\n" if flavour in (1, 4) else "\r\n").writerows(rows)
+    txt = buf.getvalue()
+    if flavour in (2, 4):
+        txt = "".join(" , ".join(l.rstrip("\r\n").split(",")) + " " + l[len(l.rstrip("\r\n")):] for l in txt.splitlines(keepends=True))
     with open(path, "w", newline="") as f:
-        csv.writer(f).writerows(rows)
+        f.write(txt)
     ja = JetAnalysis()
-    ja.read_jet_data(path)
+    if flavour in (3, 5):
+        ja.read_jet_data(path)
+        ja = COPIERS[["copy", "deepcopy", "pickle"][len(idxs) % 3]](ja)
+    if flavour == 5:
+        old = os.getcwd()
+        os.chdir(_tmpdir())
+        try:
+            ja.read_jet_data("read.csv")
+        finally:
+            os.chdir(old)
+    else:
+        ja.read_jet_data(path)
     real_groups = ja.jet_data_
     real = "ok " + (";".join(str(len(g)) for g in real_groups) or ".")
     flat = [r for g in real_groups for r in g]
@@ -1487,7 +1516,11 @@ def gen_session(rng):
         r = rng.random()
         pre = "keep" if r < 0.7 else "delete" if r < 0.8 else dict(text=gen_prior(rng)[0] or "")
         steps.append(dict(mut=muts, data=data, path=steps[-1]["path"] if rng.random() < 0.7 else rng.choice(["a", "b"]),
-                          pre=pre, read=rng.random() < 0.4, **par))
+                          pre=pre, read=rng.random() < 0.4,
+                          # round 4: the object is replaced by its copy / pickle round trip between two calls; the data
+                          # come in another sequence type
+                          ja_copy=rng.choice([None, None, None, None, None, "copy", "deepcopy", "pickle"]),
+                          container=rng.choice([None, None, None, None, "tuple-outer", "objarr", "tuple-both"]), **par))
     return dict(base=base, steps=steps)
 
 
@@ -1524,9 +1557,11 @@ def run_session(sess, judge_steps=True, upto=None):
             inp = dict(events=copy.deepcopy(content), R=st["R"], alg=st["alg"], eta=list(st["eta"]), pt=list(st["pt"]),
                        only_charged=st["only_charged"], prior=prior)
             outcome = "ok"
+            if st.get("ja_copy"):
+                ja = COPIERS[st["ja_copy"]](ja)
             try:
                 with contextlib.redirect_stdout(io.StringIO()):
-                    ja.perform_jet_finding(live, st["R"], tuple(st["eta"]), tuple(st["pt"]), path,
+                    ja.perform_jet_finding(present_data(live, st.get("container")), st["R"], tuple(st["eta"]), tuple(st["pt"]), path,
                                            assoc_only_charged=st["only_charged"], jet_algorithm=_alg(st["alg"]))
             except ValueError:
                 outcome = "err value"
@@ -1606,6 +1641,9 @@ def shrink_session(sess, k, key0):
                 cands.append(dict(cur, steps=cur["steps"][:i] + [dict(st, read=False)] + cur["steps"][i + 1:]))
             if st["pre"] != "keep":
                 cands.append(dict(cur, steps=cur["steps"][:i] + [dict(st, pre="keep")] + cur["steps"][i + 1:]))
+            for k_ in ("ja_copy", "container"):
+                if st.get(k_):
+                    cands.append(dict(cur, steps=cur["steps"][:i] + [dict(st, **{k_: None})] + cur["steps"][i + 1:]))
         last = cur["steps"][-1]
         for i, st in enumerate(cur["steps"][:-1]):
             if any(st[f] != last[f] for f in ("R", "alg", "eta", "pt", "only_charged", "path")):
@@ -1674,11 +1712,45 @@ def _report(ctx, inp, r):
     ctx.violation(r[0], r[1], dict(input=strip(inp), detail=r[2], how_to_replay="./check C20 --replay <this file>"))
 
 
+def probe_iterators(ctx, rng):
+    """One-shot iterators are not documented input (`hadron_data: list`).  An iterator as the OUTER container must be
+    rejected or handled correctly, never answered with a wrong file (the clean code raises TypeError: len())."""
+    from sparkx.JetAnalysis import JetAnalysis
+    for _ in range(20):
+        inp, _info = gen_input(rng)
+        inp["variant"] = None
+        ref = ref_groups(inp)
+        if isinstance(ref, tuple) or not ref:
+            continue
+        for how in ("iter", "generator", "map"):
+            evs = mk_events(inp)
+            arg = iter(evs) if how == "iter" else (e for e in evs) if how == "generator" else map(lambda e: e, evs)
+            path = os.path.join(_tmpdir(), "it.csv")
+            if os.path.exists(path):
+                os.remove(path)
+            try:
+                with contextlib.redirect_stdout(io.StringIO()):
+                    JetAnalysis().perform_jet_finding(arg, inp["R"], tuple(inp["eta"]), tuple(inp["pt"]), path,
+                                                      assoc_only_charged=inp["only_charged"], jet_algorithm=_alg(inp["alg"]))
+            except Exception:  # noqa: BLE001
+                ctx.count("oracle/iterator-outer:%s rejected" % how)
+                continue
+            ctx.count("oracle/iterator-outer:%s accepted" % how)
+            r = judge(inp, "ok", read_rows(path), path, ref=ref)
+            if is_violation(r):
+                ctx.violation("iterator-input-silently-wrong: " + r[0],
+                              f"hadron data given as a one-shot {how} over the events is neither rejected nor handled: {r[1]}",
+                              dict(input=strip(inp), detail=dict(container=how, verdict=r[2]),
+                                   how_to_replay="pass %s(events) as hadron_data of the input in this file" % how))
+        return
+
+
 def search(ctx, budget_s):
     rng = ctx.rng
     t0 = time.time()
     n = amb = 0
     seen = set()
+    probe_iterators(ctx, rng)
     nsess = ncalls = 0
     for case in corpus():
         n += 1
